@@ -124,6 +124,10 @@ def check_case(case, rec):
     Lc, Rc, by = case["L"], case["R"], case["by"]
     L = V.frame(Lc)
     R = V.frame(Rc)
+    if case.get("grouped"):
+        # frames on which group_by was called earlier are frames too (the mark stays on the object)
+        L.group_by(Lc[0][0])
+        R.group_by(Rc[0][0])
     check_joins_on(L, R, Lc, Rc, by, case["joins"], rec, case)
 
 
@@ -150,6 +154,8 @@ def check_joins_on(L, R, Lc, Rc, by, joins, rec, case=None):
         rec.case((lb, rb, repr(by), join), nontrivial)
         rec.trans()
         one = {"L": Lc, "R": Rc, "by": by, "joins": [join]}
+        if case.get("grouped"):
+            one["grouped"] = True
         try:
             out = getattr(L, join)(R, *by_arg)
         except Exception as e:
@@ -301,6 +307,8 @@ def run_shard(shard, rec):
                             "R": right_cols([[rname, rkind, rt]], len(rt)),
                             "by": by, "joins": JOINS, "poke": True}
                     check_case(case, rec)
+                    if m <= 2 and len(rt) <= 2:
+                        check_case(dict(case, grouped=True, poke=False), rec)
     else:
         k1, k2 = shard["kinds"]
         a1, a2 = V.alphabet(k1, "key"), V.alphabet(k2, "key")
